@@ -1,0 +1,99 @@
+//! Verification seam, compiled only with the `verif-hooks` feature.
+//!
+//! `std::collections::HashMap` iterates in an order that depends on a per-map random seed.
+//! With this feature on, every place that iterates a captured scope or an environment asks
+//! this module for the order instead, so that a harness can enumerate the possible orders
+//! rather than sampling whatever the hash seed happens to produce.
+//!
+//! Entries are first sorted by key (the default, deviation-free answer) and then permuted by
+//! the next answer of a thread-local script: all `n!` permutations for `n <= 4` entries,
+//! identity / reversal / the `n - 1` rotations above that.
+
+use std::cell::RefCell;
+
+#[derive(Default)]
+struct State {
+    script: Vec<usize>,
+    pos: usize,
+    /// One record per choice point reached: (number of entries, number of possible answers).
+    log: Vec<(usize, usize)>,
+}
+
+thread_local! {
+    static STATE: RefCell<State> = RefCell::new(State::default());
+}
+
+/// Install a script of answers (answer 0 = sorted order) and clear the log.
+pub fn reset(script: Vec<usize>) {
+    STATE.with(|s| {
+        let mut s = s.borrow_mut();
+        s.script = script;
+        s.pos = 0;
+        s.log.clear();
+    });
+}
+
+/// The choice points reached since the last `reset`.
+pub fn take_log() -> Vec<(usize, usize)> {
+    STATE.with(|s| std::mem::take(&mut s.borrow_mut().log))
+}
+
+/// Number of distinct answers offered for a collection of `n` entries.
+pub fn options(n: usize) -> usize {
+    match n {
+        0 | 1 => 1,
+        2 => 2,
+        3 => 6,
+        4 => 24,
+        _ => n + 1,
+    }
+}
+
+fn choose(n: usize) -> usize {
+    let k = options(n);
+    if k == 1 {
+        return 0;
+    }
+    STATE.with(|s| {
+        let mut s = s.borrow_mut();
+        let answer = s.script.get(s.pos).copied().unwrap_or(0);
+        s.pos += 1;
+        s.log.push((n, k));
+        assert!(answer < k, "verif_hooks: answer {} out of range {}", answer, k);
+        answer
+    })
+}
+
+/// Order `items` by key, then apply the permutation selected by the script.
+pub fn order<'a, T>(mut items: Vec<(&'a String, T)>) -> Vec<(&'a String, T)> {
+    items.sort_by(|a, b| a.0.cmp(b.0));
+    let n = items.len();
+    let answer = choose(n);
+    if answer == 0 {
+        return items;
+    }
+    if n <= 4 {
+        // Decode `answer` as a Lehmer code.
+        let mut pool: Vec<Option<(&'a String, T)>> = items.into_iter().map(Some).collect();
+        let mut remaining: Vec<usize> = (0..n).collect();
+        let mut out = Vec::with_capacity(n);
+        let mut code = answer;
+        let mut radix: usize = (1..n).product();
+        for i in 0..n {
+            let idx = code / radix;
+            code %= radix;
+            if n - i - 1 > 0 {
+                radix /= n - i - 1;
+            }
+            let pick = remaining.remove(idx);
+            out.push(pool[pick].take().unwrap());
+        }
+        out
+    } else if answer == 1 {
+        items.reverse();
+        items
+    } else {
+        items.rotate_left(answer - 1);
+        items
+    }
+}
